@@ -139,18 +139,12 @@ def run(prog, rep):
         rep.check(good, "C08-R3", "tokenizer/group", grp[0].where() if grp else f"{tk.file}:{tk.line}", "`(` starts a recursively tokenised group",
                   "a parenthesised group is not tokenised by the recursive call")
     # parser side: C05's terminal rule re-used
-    peng2 = terms.Engine(prog, inline=True, hooks=E.Hooks([], inline_names=c05.INLINE_PARSER))
-    entry = prog.lib_fn("preprocessing::parser::parse_hctl_tokens")
-    if term_fn is not None and entry is not None:
-        f = term_fn[0]
-        lv = c05.analyse_level(prog, peng2, f)
-        first = [prog.resolve_local(entry.crate, x.callee) for x in peng2.summary(entry).sites if x.kind == "call" and isinstance(x.callee, str)
-                 and prog.resolve_local(entry.crate, x.callee) is not None and c05.is_level_fn(prog.resolve_local(entry.crate, x.callee))]
-        sub = type(rep)("C08x")
-        c05.check_terminal(prog, sub, lv, entry, first[0] if first else entry)
-        bad = [i for i in sub.instances if i.verdict != "ok" and "single-token" in i.key]
-        rep.check(not bad, "C08-R3", "parser/group-unchanged", f"{f.file}:{f.line}", "a parenthesised group re-enters the top level; its tree is returned unchanged",
-                  bad[0].detail if bad else "")
+    sub = type(rep)("C08x")
+    c05.check_levels(prog, sub)
+    bad = [i for i in sub.instances if i.verdict != "ok" and "single-token" in i.key]
+    have = [i for i in sub.instances if "single-token" in i.key]
+    rep.check(bool(have) and not bad, "C08-R3", "parser/group-unchanged", have[0].where if have else "", "a parenthesised group re-enters the top level; its tree is returned unchanged",
+              bad[0].detail if bad else "the terminal level could not be analysed")
     # the look-ahead of `3` / `V` must skip whitespace, and whitespace skipping must accept every whitespace character (C05-R4 / R5 instances)
     sub5 = type(rep)("C08z")
     c05.check_tokenizer(prog, sub5)
